@@ -58,6 +58,25 @@ Theorem C13_normal_body : forall orc c mode t body hist,
 Proof. exact c13_normal_body. Qed.
 Print Assumptions C13_normal_body.
 
+(* "Answered with a warning only" whatever the SHAPE of the warnings (children missing, empty, padded, unknown severity
+   texts; [orc] is any list of parsed rpc-errors, e.g. Model.RpcErrors.parse_errors of any reply tree): no rpc-error
+   whose severity is exactly 'error' => the lock is granted: body, then the unlock. *)
+Theorem C13_warning_only_lock_granted : forall orc c mode t body hist,
+  existsb sev_is_error (orc hist K_LOCK t) = false ->
+  let lk := mkEv K_LOCK t true false in
+  let tb := fst (exec orc c mode body (hist ++ [lk])) in
+  exists u, fst (exec orc c mode (Locked t body) hist) = [lk] ++ tb ++ [mkEv K_UNLOCK t true u].
+Proof. exact c13_warning_only_lock_granted. Qed.
+Print Assumptions C13_warning_only_lock_granted.
+
+(* Requests the body fires asynchronously and leaves in flight (the caller drops the RPC object): the server receives
+   them, the caller sees nothing of their replies - whatever the server answers, whenever the answer arrives - so every
+   theorem above covers bodies with requests in flight; in particular the unlock follows them. *)
+Theorem C13_async_request_in_flight : forall orc c mode k t hist,
+  exec orc c mode (AReq k t) hist = ([mkEv k t false false], Normal).
+Proof. reflexivity. Qed.
+Print Assumptions C13_async_request_in_flight.
+
 (* ---------- non-vacuity ---------- *)
 Definition B (s : string) : bytes := lit s.
 Definition err (sev msg : string) : rpc_error := mkErr None None None (Some (B sev)) None None (Some (B msg)).
@@ -91,3 +110,27 @@ Example C13_ex_unlock_error_after_normal_body :
   snd (exec (scripted [[]; [err "error" "u"]]) nopats MODE_NONE (Locked running Ret) []) =
   Exc (RpcExn K_UNLOCK running (RaiseSingle (err "error" "u"))).
 Proof. vm_compute. reflexivity. Qed.
+
+(* a body that leaves two requests in flight, both answered with errors, the lock granted with a warning only:
+   lock, the two requests, unlock; the context ends normally *)
+Example C13_ex_in_flight :
+  exec (scripted [[err "warning" "w"]; [err "error" "a1"]; [err "error" "a2"]; []]) nopats MODE_ALL
+       (Locked running (Seq (AReq 2 running) (AReq 2 candidate))) [] =
+  ([mkEv K_LOCK running true false; mkEv 2 running false false; mkEv 2 candidate false false;
+    mkEv K_UNLOCK running true false], Normal).
+Proof. vm_compute. reflexivity. Qed.
+
+(* a granted lock whose reply is a warning with EMPTY <error-path/>, <error-app-tag/>, <error-message/> children (text
+   None), computed from the reply tree by parse_errors: the hypothesis of C13_warning_only_lock_granted holds *)
+Definition qn (s : string) : bytes := lit ("{urn:ietf:params:xml:ns:netconf:base:1.0}" ++ s).
+Definition leaf (s : string) (t : option bytes) : node := Elem (qn s) [] t [] [].
+Definition ex_warning_reply : node :=
+  Elem (qn "rpc-reply") [] None []
+    [Elem (qn "rpc-error") [] None []
+       [leaf "error-type" (Some (B "application")); leaf "error-severity" (Some (B "warning"));
+        leaf "error-app-tag" None; leaf "error-path" None; leaf "error-message" None]].
+Example C13_ex_empty_children :
+  existsb sev_is_error (parse_errors ex_warning_reply) = false /\
+  exec (fun h _ _ => match h with [] => parse_errors ex_warning_reply | _ => [] end) nopats MODE_ALL (Locked candidate Ret) [] =
+  ([mkEv K_LOCK candidate true false; mkEv K_UNLOCK candidate true false], Normal).
+Proof. vm_compute. split; reflexivity. Qed.
